@@ -242,6 +242,21 @@ Theorem C03_range_query_layout_dependence_refuted :
 Proof. exact range_query_layout_dependence_refuted. Qed.
 Print Assumptions C03_range_query_layout_dependence_refuted.
 
+(* ----- persistent queries: what the ingest-time evaluator sees ----- *)
+(* getLastRecord() after any history of a column in the open block = the record just written (the value, or
+   the single back-fill byte when the event lacks the column), so the ingest-time match of segstream.go is
+   evaluated on the same bytes the record-level search reads later *)
+Theorem C03_ingest_window_is_last_record : forall xs x, cw_last (cw_run (xs ++ [x])) = rec_of x.
+Proof. exact window_is_last_record. Qed.
+Print Assumptions C03_ingest_window_is_last_record.
+
+(* the cstartidx assignment of the back-fill loop cannot be dropped: {status:500},{} would be evaluated on 500 *)
+Theorem C03_ingest_window_needs_start_update :
+  exists xs, cw_last (cw_run_nostart xs) <> rec_of (last xs None)
+    /\ firstn 9 (cw_last (cw_run_nostart xs)) = enc_cell (WInt 500).
+Proof. exact window_needs_start_update. Qed.
+Print Assumptions C03_ingest_window_needs_start_update.
+
 (* ----- statistics: merge order, pre-aggregated segment statistics ----- *)
 Theorem C03_merge_order_irrelevant :
   forall (S : Type) (merge : S -> S -> S) (unit : S),
